@@ -98,3 +98,209 @@ Section CliPool.
     (k + measure (worker_blocks o lib) s' <= measure (worker_blocks o lib) s)%nat.
   Proof. intros. eapply run_bounded; eauto. Qed.
 End CliPool.
+
+(* ------------------------------------------------------------------ rendering: model = documented format *)
+(* Contract of the library assumed here (it is the subject of C05/C15, and is checked on every
+   generated case by CliCase.v, which evaluates model and specification on the two APIs' actual
+   answers): under params_of_flags the callback API delivers, in result-list order, one rule event
+   per non-private rule whose verdict is the wanted one, carrying the declared namespace / name /
+   tags / metadata and the match lists of the non-private strings. *)
+Definition event_of (ds : list decl) (r : rres) : event :=
+  match find_decl ds (rr_ns r) (rr_name r) with
+  | Some d => EvRule (rr_matched r) (d_info d) (rr_strings r)
+  | None => EvOther
+  end.
+Definition lib_events (o : cb_options) (ds : list decl) (rs : list rres) : list event :=
+  map (event_of ds) (filter (wanted o) rs).
+
+Definition results_ok (ds : list decl) (rs : list rres) : Prop :=
+  forall r, In r rs -> exists d, find_decl ds (rr_ns r) (rr_name r) = Some d /\ d_private d = false
+                                 /\ forall s, In s (rr_strings r) -> string_is_private d (fst s) = false.
+
+Lemma bytes_eqb_sym a b : bytes_eqb a b = bytes_eqb b a.
+Proof.
+  unfold bytes_eqb. revert b. induction a as [|x a IH]; intros [|y b]; cbn [list_eqb]; auto.
+  now rewrite IH, N.eqb_sym.
+Qed.
+
+Lemma print_bytes_escaped data key : print_bytes data key = escaped (xor_bytes key data).
+Proof.
+  unfold print_bytes, escaped, xor_bytes. induction data as [|c data IH]; cbn [flat_map map]; [ reflexivity | ].
+  now rewrite IH.
+Qed.
+
+Lemma xor_bytes_0 data : xor_bytes 0 data = data.
+Proof.
+  unfold xor_bytes. induction data as [|c data IH]; cbn [map]; [ reflexivity | ].
+  now rewrite IH, N.lxor_0_r.
+Qed.
+
+Lemma print_match_eq o sname m : print_match o sname m = match_line o sname m.
+Proof.
+  unfold print_match, match_line. rewrite !print_bytes_escaped, xor_bytes_0. reflexivity.
+Qed.
+
+Lemma print_metadata_items_join ms :
+  print_metadata_items true ms = join (B ",") (map meta_text ms)
+  /\ print_metadata_items false ms = match ms with [] => [] | _ => B "," ++ join (B ",") (map meta_text ms) end.
+Proof.
+  induction ms as [|[name v] ms [IH1 IH2]]; [ split; reflexivity | ].
+  assert (E : forall first, print_metadata_items first ((name, v) :: ms)
+              = (if first then [] else B ",") ++ meta_text (name, v) ++ print_metadata_items false ms).
+  { intros first. cbn [print_metadata_items]. unfold meta_text. cbn [fst snd].
+    destruct v as [b | z | []]; rewrite ?print_bytes_escaped, ?xor_bytes_0, <- ?app_assoc; reflexivity. }
+  split; rewrite E, IH2; destruct ms; cbn [map join app]; rewrite ?app_nil_r; reflexivity.
+Qed.
+
+Lemma header_eq o info what :
+  (if o_ns o then r_ns info ++ B ":" else [])
+    ++ r_name info
+    ++ (if o_tags o then B " [" ++ join (B ",") (r_tags info) ++ B "]" else [])
+    ++ (if o_meta o then print_metadata (r_metas info) else [])
+    ++ B " " ++ what
+  = rule_line o info what.
+Proof.
+  unfold rule_line, print_metadata. destruct (print_metadata_items_join (r_metas info)) as [-> _]. reflexivity.
+Qed.
+
+Lemma tag_filter_eq tag tags :
+  forallb (fun t => negb (bytes_eqb t tag)) tags = negb (mem_bytes tag tags).
+Proof.
+  unfold mem_bytes. induction tags as [|t tags IH]; cbn [forallb existsb]; [ reflexivity | ].
+  rewrite IH, negb_orb, (bytes_eqb_sym t tag). reflexivity.
+Qed.
+
+Lemma match_lines_eq o d ms :
+  (forall s, In s ms -> string_is_private d (fst s) = false) ->
+  flat_map (fun s : bytes * list smatch => map (print_match o (fst s)) (snd s)) ms
+  = flat_map (fun s => if string_is_private d (fst s) then [] else map (match_line o (fst s)) (snd s)) ms.
+Proof.
+  induction ms as [|s ms IH]; intros H; cbn [flat_map]; [ reflexivity | ].
+  rewrite (H s (or_introl eq_refl)), IH by (intros; apply H; now right).
+  f_equal. apply map_ext. intros. apply print_match_eq.
+Qed.
+
+Lemma display_rule_eq o ds what r d :
+  find_decl ds (rr_ns r) (rr_name r) = Some d -> d_private d = false ->
+  (forall s, In s (rr_strings r) -> string_is_private d (fst s) = false) ->
+  rule_lines o ds what r = Some (display_rule o what (d_info d) (rr_strings r)).
+Proof.
+  intros Hf Hp Hs. unfold rule_lines, display_rule. rewrite Hf, Hp. unfold shown.
+  destruct (o_ident o) as [id |]; [ destruct (bytes_eqb (r_name (d_info d)) id); cbn [negb andb]; auto | ];
+    (destruct (o_tag o) as [tag |]; [ rewrite tag_filter_eq; destruct (mem_bytes tag (r_tags (d_info d))) | ]);
+    cbn [negb andb]; auto;
+    rewrite header_eq; unfold print_strings, print_strings_matches;
+    destruct (o_strings o || o_length o || o_xor o); auto; now rewrite (match_lines_eq o d).
+Qed.
+
+Definition block_of (o : cb_options) (what : bytes) (e : event) : list line :=
+  match e with
+  | EvRule _ info ms => if o_count o then [] else map so (display_rule o what info ms)
+  | _ => []
+  end.
+Definition is_rule (e : event) : bool := match e with EvRule _ _ _ => true | _ => false end.
+
+Definition take_limit {A} (o : cb_options) (nb : N) (l : list A) : list A :=
+  match o_limit o with Some lim => firstn (N.to_nat (lim - nb)) l | None => l end.
+
+(* the callback loop over rule events stops after the event that makes nb_rules reach the limit *)
+Lemma run_events_rules o what evs : forallb is_rule evs = true -> forall nb,
+  match o_limit o with Some lim => nb < lim | None => True end ->
+  run_events o what evs nb = (map (block_of o what) (take_limit o nb evs), nb + nlen (take_limit o nb evs)).
+Proof.
+  unfold take_limit. induction evs as [|e evs IH]; intros Hr nb Hl.
+  - cbn [run_events]. destruct (o_limit o); rewrite ?firstn_nil; cbn; f_equal; lia.
+  - cbn [forallb] in Hr. apply andb_true_iff in Hr as [He Hr]. destruct e as [m info ms | |]; try discriminate.
+    cbn [run_events handle_event].
+    destruct (o_limit o) as [lim |] eqn:EL.
+    + destruct (lim <=? nb + 1) eqn:Ele.
+      * assert (E1 : N.to_nat (lim - nb) = 1%nat) by lia. rewrite E1. cbn [firstn map block_of].
+        rewrite ?firstn_O. cbn [map]. unfold nlen. cbn [length]. f_equal.
+      * assert (E1 : N.to_nat (lim - nb) = S (N.to_nat (lim - (nb + 1)))) by lia.
+        rewrite E1. cbn [firstn map block_of].
+        specialize (IH Hr (nb + 1)). try rewrite EL in IH. rewrite IH by lia.
+        f_equal. unfold nlen. cbn [length]. lia.
+    + specialize (IH Hr (nb + 1) I). try rewrite EL in IH. rewrite IH. cbn [map block_of].
+      f_equal. unfold nlen. cbn [length]. lia.
+Qed.
+
+Lemma stdout_of_so l : stdout_of (map so l) = l.
+Proof. unfold stdout_of. induction l as [|x l IH]; cbn; [ reflexivity | now f_equal ]. Qed.
+Lemma stdout_of_app a b : stdout_of (a ++ b) = stdout_of a ++ stdout_of b.
+Proof. apply flat_map_app. Qed.
+
+Lemma lib_events_rules o ds rs : results_ok ds rs -> forallb is_rule (lib_events o ds rs) = true.
+Proof.
+  intros H. unfold lib_events. apply forallb_forall. intros e He.
+  apply in_map_iff in He as (r & <- & Hr). apply filter_In in Hr as [Hr _].
+  destruct (H r Hr) as (d & Hf & _). unfold event_of. now rewrite Hf.
+Qed.
+
+Lemma in_firstn {A} (x : A) k l : In x (firstn k l) -> In x l.
+Proof.
+  revert l. induction k as [|k IH]; intros [|y l]; cbn [firstn]; intros H; try contradiction.
+  destruct H as [-> | H]; [ now left | right; auto ].
+Qed.
+
+Lemma firstn_results_ok ds rs k : results_ok ds rs -> results_ok ds (firstn k rs).
+Proof. intros H r Hr. apply H. eapply in_firstn; eauto. Qed.
+Lemma filter_results_ok ds rs f : results_ok ds rs -> results_ok ds (filter f rs).
+Proof. intros H r Hr. apply H. apply filter_In in Hr. tauto. Qed.
+
+Lemma rules_render o ds what rs : results_ok ds rs -> o_count o = false ->
+  concat_opt (map (rule_lines o ds what) rs)
+  = Some (stdout_of (concat (map (block_of o what) (map (event_of ds) rs)))).
+Proof.
+  intros H Hc. induction rs as [|r rs IH]; [ reflexivity | ].
+  cbn [map concat_opt concat]. destruct (H r (or_introl eq_refl)) as (d & Hf & Hp & Hs).
+  rewrite (display_rule_eq o ds what r d Hf Hp Hs), IH by (intros x Hx; apply H; now right).
+  assert (Ee : event_of ds r = EvRule (rr_matched r) (d_info d) (rr_strings r)) by (unfold event_of; now rewrite Hf).
+  rewrite stdout_of_app, Ee. cbn [block_of]. rewrite Hc, stdout_of_so. reflexivity.
+Qed.
+
+Lemma count_blocks_empty o what evs : o_count o = true -> forallb is_rule evs = true ->
+  concat (map (block_of o what) evs) = [].
+Proof.
+  intros Hc. induction evs as [|e evs IH]; [ reflexivity | ].
+  cbn [forallb map concat]. intros H. apply andb_true_iff in H as [He H].
+  destruct e; try discriminate. cbn [block_of]. rewrite Hc. cbn [app]. auto.
+Qed.
+
+Lemma events_rules ds S : results_ok ds S -> forallb is_rule (map (event_of ds) S) = true.
+Proof.
+  intros H. apply forallb_forall. intros e He. apply in_map_iff in He as (r & <- & Hr).
+  destruct (H r Hr) as (d & Hf & _). unfold event_of. now rewrite Hf.
+Qed.
+
+Lemma render_sel o ds what S : results_ok ds S ->
+  (if o_count o then Some [what ++ B ": " ++ dec (nlen S)] else concat_opt (map (rule_lines o ds what) S))
+  = Some (stdout_of (concat (map (block_of o what) (map (event_of ds) S)))
+          ++ stdout_of (concat (if o_count o then [[so (what ++ B ": " ++ dec (nlen (map (event_of ds) S)))]] else []))).
+Proof.
+  intros H. destruct (o_count o) eqn:Hc.
+  - rewrite count_blocks_empty by (auto using events_rules).
+    unfold nlen. rewrite map_length. reflexivity.
+  - rewrite (rules_render o ds what S H Hc). cbn [concat]. unfold stdout_of at 3. cbn [flat_map].
+    now rewrite app_nil_r.
+Qed.
+
+(* C18_render: for one scanned file, the model's stdout lines are the documented rendering of the
+   library's result list (filters -i -t, negate, count, limit, flags -s -L -X -m -g -e) *)
+Theorem render_file : forall o ds what rs,
+  o_limit o <> Some 0 -> results_ok ds rs ->
+  spec_file_lines o ds what (Some rs)
+  = Some (stdout_of (worker_lines o (fun _ => inr (lib_events o ds rs)) what)).
+Proof.
+  intros o ds what rs Hl Hok.
+  pose proof (lib_events_rules o ds rs Hok) as Hr.
+  assert (Hnb : match o_limit o with Some lim => 0 < lim | None => True end).
+  { destruct (o_limit o) as [[|p] |]; [ congruence | lia | exact I ]. }
+  unfold worker_lines, worker_blocks, scan_file.
+  rewrite (run_events_rules o what _ Hr 0 Hnb).
+  rewrite concat_app, stdout_of_app.
+  unfold spec_file_lines, limited, take_limit, lib_events in *.
+  assert (HW : results_ok ds (filter (wanted o) rs)) by now apply filter_results_ok.
+  destruct (o_limit o) as [lim |]; rewrite N.add_0_l.
+  - rewrite N.sub_0_r, firstn_map. apply render_sel. now apply firstn_results_ok.
+  - now apply render_sel.
+Qed.
